@@ -5,8 +5,10 @@ random expression DAGs x forcing histories are executed by the real library and 
 extracted model (voxel instance); forced solids, node-graph shapes and exact volumes
 are compared, and different histories / constructions of one expression are compared
 with each other."""
-import os, random, re
+import os, random, re, sys
 import vp
+
+sys.setrecursionlimit(100000)
 
 LEVEL = "proof"
 META = {
@@ -454,6 +456,8 @@ def emit(d, root, rng, mode):
         isop = x[0] in ("B", "O")
         if mode == "eager" and isop:
             force(v)
+        if mode == "chunk" and isop and v != root and (pos + 1) % 600 == 0:
+            force(v)          # every 300th operator of a long chain: the pieces stay below kMaxUnionSize
         if mode == "mixed":
             if isop and rng.random() < 0.3:
                 force(v)
@@ -464,7 +468,7 @@ def emit(d, root, rng, mode):
                 if cands:
                     force(rng.choice(cands))
         # drop operands after their last use
-        if mode in ("lazy_drop", "mixed", "flat", "subsub"):
+        if mode in ("lazy_drop", "mixed", "flat", "subsub", "chunk", "eager_drop"):
             x = d.vals[v]
             deps = [x[2], x[3]] if x[0] == "B" else list(x[2]) if x[0] == "O" else [x[2]] if x[0] == "T" else []
             for a in set(deps):
@@ -486,6 +490,60 @@ def kmax_from_source():
     return int(m.group(1)) if m else None
 
 
+def dag_cases(made, d, root, variants, rng, grid_vals=None):
+    """case lines + exact expectations for one DAG under the given (name, dag, root, emit mode) variants"""
+    inst = d.instances(root, cap=10 ** 7)
+    # the sampling lattice must contain every value that any history may force (intermediates sit where they were
+    # built, before the transforms applied to them later)
+    allinst = []
+    for v in (range(len(d.vals)) if grid_vals is None else grid_vals):
+        allinst += d.instances(v, cap=10 ** 7)
+    g = []
+    for a in range(3):
+        los = [(lo[a] - 32) // 64 for (_, _, (lo, hi)) in allinst]
+        his = [(hi[a] - 32) // 64 + 1 for (_, _, (lo, hi)) in allinst]
+        g += [min(los) - 1, max(his) + 1]
+    axes = tuple([64 * i + 32 for i in range(g[2 * a], g[2 * a + 1])] for a in range(3))
+    ncell = len(axes[0]) * len(axes[1]) * len(axes[2])
+
+    def expect(dd, v):
+        e = dd.err(v)
+        if e:
+            return hex_of(0, ncell), 0, e
+        return expect_ok(dd, v) + (0,)
+
+    def expect_ok(dd, v):
+        b = dd.bits(v, axes)
+        # exact volume on the grid compressed to the face coordinates of v's own leaf instances (doubled coordinates,
+        # so that the cell midpoints used as samples are integers)
+        vi = dd.instances(v, cap=10 ** 7)
+        axes2, mids = [], []
+        for a in range(3):
+            cs = sorted(set(c for (_, _, (lo, hi)) in vi for c in (lo[a], hi[a])))
+            m2 = [cs[i] + cs[i + 1] for i in range(len(cs) - 1)]
+            axes2.append((m2, [cs[i + 1] - cs[i] for i in range(len(cs) - 1)]))
+            mids.append(m2)
+        if any(len(m) == 0 for m in mids):
+            return hex_of(b, ncell), 0
+        dd2 = Dag([("L", (tuple(2 * c for c in x[1][0]), tuple(2 * c for c in x[1][1]))) if x[0] == "L" else x for x in dd.vals])
+        dd2_tr = Dag([(x[0], x[1], x[2], tuple(2 * c for c in x[3])) if (x[0] == "T" and x[1] == "TT") else x for x in dd2.vals])
+        bv = dd2_tr.bits(v, tuple(mids))
+        return hex_of(b, ncell), volume6(bv, axes2)
+
+    cases = []
+    root_exp = expect(d, root)
+    for (vn, dd, rt, mode) in variants:
+        ops, forced = emit(dd, rt, random.Random(rng.getrandbits(32)), mode)
+        cid = "%s.%s" % (made, vn)
+        line = "CASE %s %s | %s" % (cid, " ".join(map(str, g)), " | ".join(" ".join(o) for o in ops))
+        exp = {}
+        for (j, v) in forced:
+            exp[j] = root_exp if v == rt else expect(dd, v)
+        cases.append(dict(id=cid, dag=made, variant=vn, line=line, forced=forced, exp=exp, root=rt, nvals=len(dd.vals),
+                          ninst=len(inst), ncell=ncell))
+    return cases
+
+
 def build_cases(rng, ndags):
     cases = []          # dict(id, dag, variant, line, forced, grid, exp: {opindex: (hex, vol6)})
     tries = 0
@@ -496,64 +554,98 @@ def build_cases(rng, ndags):
         if d is None:
             continue
         root = len(d.vals) - 1
-        inst = d.instances(root)
-        # the sampling lattice must contain every value that any history may force (intermediates sit where they were
-        # built, before the transforms applied to them later)
-        allinst = []
-        for v in range(len(d.vals)):
-            allinst += d.instances(v)
-        g = []
-        for a in range(3):
-            los = [(lo[a] - 32) // 64 for (_, _, (lo, hi)) in allinst]
-            his = [(hi[a] - 32) // 64 + 1 for (_, _, (lo, hi)) in allinst]
-            g += [min(los) - 1, max(his) + 1]
-        axes = tuple([64 * i + 32 for i in range(g[2 * a], g[2 * a + 1])] for a in range(3))
-        ncell = len(axes[0]) * len(axes[1]) * len(axes[2])
-
-        def expect(dd, v):
-            e = dd.err(v)
-            if e:
-                return hex_of(0, ncell), 0, e
-            return expect_ok(dd, v) + (0,)
-
-        def expect_ok(dd, v):
-            b = dd.bits(v, axes)
-            # exact volume on the grid compressed to the face coordinates of v's own leaf instances (doubled coordinates,
-            # so that the cell midpoints used as samples are integers)
-            vi = dd.instances(v)
-            axes2, mids = [], []
-            for a in range(3):
-                cs = sorted(set(c for (_, _, (lo, hi)) in vi for c in (lo[a], hi[a])))
-                m2 = [cs[i] + cs[i + 1] for i in range(len(cs) - 1)]
-                axes2.append((m2, [cs[i + 1] - cs[i] for i in range(len(cs) - 1)]))
-                mids.append(m2)
-            if any(len(m) == 0 for m in mids):
-                return hex_of(b, ncell), 0
-            dd2 = Dag([("L", (tuple(2 * c for c in x[1][0]), tuple(2 * c for c in x[1][1]))) if x[0] == "L" else x for x in dd.vals])
-            dd2_tr = Dag([(x[0], x[1], x[2], tuple(2 * c for c in x[3])) if (x[0] == "T" and x[1] == "TT") else x for x in dd2.vals])
-            bv = dd2_tr.bits(v, tuple(mids))
-            return hex_of(b, ncell), volume6(bv, axes2)
-
-        variants = [("lazy_drop", d, root), ("lazy_keep", d, root), ("eager", d, root), ("mixed", d, root), ("mixed2", d, root), ("kernel", d, root)]
+        variants = [("lazy_drop", d, root, "lazy_drop"), ("lazy_keep", d, root, "lazy_keep"), ("eager", d, root, "eager"),
+                    ("mixed", d, root, "mixed"), ("mixed2", d, root, "mixed"), ("kernel", d, root, "kernel")]
         fl = rewrite_flat(d)
         if fl is not None:
-            variants.append(("flat", fl, root))
+            variants.append(("flat", fl, root, "flat"))
         ss, ssroot = rewrite_subsub(d)
         if ss is not None:
-            variants.append(("subsub", ss, root))
-        root_exp = expect(d, root)
-        for (vn, dd, rt) in variants:
-            mode = "mixed" if vn.startswith("mixed") else vn
-            ops, forced = emit(dd, rt, random.Random(rng.getrandbits(32)), mode)
-            cid = "%d.%s" % (made, vn)
-            line = "CASE %s %s | %s" % (cid, " ".join(map(str, g)), " | ".join(" ".join(o) for o in ops))
-            exp = {}
-            for (j, v) in forced:
-                exp[j] = root_exp if v == rt else expect(dd, v)
-            cases.append(dict(id=cid, dag=made, variant=vn, line=line, forced=forced, exp=exp, root=rt, nvals=len(dd.vals),
-                              ninst=len(inst), ncell=ncell))
+            variants.append(("subsub", ss, root, "subsub"))
+        cases += dag_cases(made, d, root, variants, rng)
         made += 1
     return cases, tries
+
+
+# ------------------------------------------------------------------ many operands in ONE BatchUnion
+
+SLAB_FR = [[13, 14, 15, 17, 18, 19], [21, 22, 23, 25, 26, 27], [28, 29, 30, 31, 16, 20]]
+
+
+def gen_big(rng, n, shape):
+    """n cheap leaves reaching one BatchUnion (kMaxUnionSize and its index arithmetic): unit boxes on a sparse lattice
+    (pairwise disjoint boxes, so one big Compose set), some of them with an overlapping partner, and a few slabs that
+    overlap many boxes (each forms its own bounding-box-disjoint set).  shape: 'flat' BatchBoolean(Add), 'chain' of
+    operator+ on temporaries, 'sub' big block minus all of them.  Returns (dag, root, variants)."""
+    W = max(8, int(n ** 0.5) + 2)
+    leaves = []
+    nsl = rng.randint(2, 3)
+    npart = max(2, n // 12)
+    ncube = n - nsl - npart
+    H = ncube // W + 1
+    for i in range(ncube):
+        cx, cy = i % W, i // W
+        leaves.append(((64 * 2 * cx + 5, 64 * 2 * cy + 6, 7), (64 * (2 * cx + 1) + 9, 64 * (2 * cy + 1) + 10, 64 + 11)))
+    for i in rng.sample(range(ncube), npart):
+        cx, cy = i % W, i // W
+        leaves.append(((64 * 2 * cx + 37, 64 * 2 * cy + 38, 39), (64 * (2 * cx + 1) + 41, 64 * (2 * cy + 1) + 42, 64 + 43)))
+    for s_ in range(nsl):
+        f = SLAB_FR[s_]
+        a = rng.randint(0, 2 * W - 6); b = a + rng.randint(3, 6)
+        c = rng.randint(0, max(1, 2 * H - 6)); e = c + rng.randint(2, 5)
+        leaves.append(((64 * a + f[0], 64 * c + f[1], f[2]), (64 * b + f[3], 64 * e + f[4], 64 + f[5])))
+    rng.shuffle(leaves)
+    # the interesting operands (own set) must also sit among the FIRST and the LAST kMaxUnionSize children
+    vals = [("L", b) for b in leaves]
+    ids = list(range(len(vals)))
+    chunk = 300
+    if shape == "flat":
+        d = Dag(vals + [("O", 0, ids)])
+        root = len(d.vals) - 1
+        # differently built: chunks of 300 forced one by one, then their union
+        v2 = list(vals)
+        parts = []
+        for k in range(0, len(ids), chunk):
+            v2.append(("O", 0, ids[k:k + chunk]) if len(ids[k:k + chunk]) > 1 else vals[ids[k]])
+            parts.append(len(v2) - 1)
+        v2.append(("O", 0, parts))
+        d2 = Dag(v2)
+        variants = [("lazy_drop", d, root, "lazy_drop"), ("flat", d2, len(v2) - 1, "eager")]
+    elif shape == "chain":
+        v = list(vals)
+        acc = 0
+        for k in ids[1:]:
+            v.append(("B", 0, acc, k)); acc = len(v) - 1
+        d = Dag(v); root = acc
+        variants = [("lazy_drop", d, root, "lazy_drop"), ("eager", d, root, "chunk")]
+    else:
+        base = ((-64 + 1, -64 + 2, -64 + 3), (64 * (2 * W + 1) + 4, 64 * (2 * H + 1) + 8, 64 * 2 + 24))
+        v = list(vals) + [("L", base)]
+        bid = len(v) - 1
+        v.append(("O", 1, [bid] + ids))
+        d = Dag(v); root = len(v) - 1
+        v2 = list(vals) + [("L", base)]
+        acc = bid
+        for k in range(0, len(ids), chunk):
+            v2.append(("O", 1, [acc] + ids[k:k + chunk])); acc = len(v2) - 1
+        d2 = Dag(v2)
+        variants = [("lazy_drop", d, root, "lazy_drop"), ("flat", d2, acc, "eager")]
+    if n <= 1500:
+        variants.append(("kernel", d, root, "kernel"))
+    return d, root, variants
+
+
+def big_cases(rng, kmax, quick):
+    """operand counts on both sides of kMaxUnionSize"""
+    plan = [(kmax - 1, "flat"), (kmax, "chain"), (kmax + 1, "flat"), (kmax + 1, "sub"), (kmax + 100, "chain"), (kmax + 100, "flat"),
+            (2 * kmax + kmax // 2, "flat")]
+    if not quick:
+        plan += [(m, sh) for m in (kmax - 1, kmax, kmax + 1, kmax + 100, 2 * kmax + kmax // 2) for sh in ("flat", "chain", "sub")]
+    cases = []
+    for k, (m, sh) in enumerate(plan):
+        d, root, variants = gen_big(rng, m, sh)
+        cases += dag_cases("big%d_%s_%d" % (k, sh, m), d, root, variants, rng, grid_vals=[root])
+    return cases
 
 
 def parse_out(text):
